@@ -241,6 +241,11 @@ def h20(b0: bool, b1: bool, b2: bool, b3: bool, b4: bool, b5: bool, lit: int, cm
             r = ref_block(_NODE.body, rel, {"x": mx, "y": my}, positions, env, e)
             want_set.add(r if r is not None else RET_ANN)
             want_errs.update(e)
+    if (got_set != want_set or got_errs != want_errs) and want_set <= got_set and want_errs <= got_errs:
+        # known finding C20-K1 (region: bodies where a partially matching `if ...: return` without else is followed by
+        # further statements, and only when pyanalyze reports MORE than the member-wise evaluation, never less)
+        if excluded(feat_seq_noelse=(data.get("feat") == "seq_noelse"), over_approx=True, b0=b0, b1=b1, b2=b2, b3=b3, b4=b4, b5=b5):
+            return skip()
     return fin(got_set == want_set and got_errs == want_errs)
 
 
@@ -310,8 +315,10 @@ def cases(tier: str, seed: int) -> List[Case]:
                             if not _pick(lab, seed, 80 if quick else 12):
                                 continue
                             n += 1
-                            out.append(Case("h20", lab, {"body": body, "x": x, "y": y, "px": px, "py": py},
-                                            timeout=90 if quick else 300, twin=(n % 5 == 0)))
+                            d = {"body": body, "x": x, "y": y, "px": px, "py": py}
+                            if "return R0\n    if " in body:
+                                d["feat"] = "seq_noelse"  # see known finding C20-K1
+                            out.append(Case("h20", lab, d, timeout=90 if quick else 300, twin=(n % 5 == 0), vacuous_ok=True))
     # pinned: the specification's own shape - an `and` of conditions on two union arguments followed by
     # a branch that inspects one of them again
     pinned_body = ("def f(x, y):\n    if is_of_type(x, A0) and is_of_type(y, A1):\n        return R0\n"
@@ -325,10 +332,19 @@ def cases(tier: str, seed: int) -> List[Case]:
                    "    else:\n        return R1\n")
     pinned_nest = ("def f(x, y):\n    if is_of_type(x, A0):\n        if is_of_type(y, A1):\n            return R0\n    else:\n        return R1\n"
                    "    show_error('e1')\n    return R2\n")
+    pinned_seqx = ("def f(x, y):\n    if is_of_type(x, A0):\n        return R0\n    if is_of_type(x, A1):\n        return R1\n"
+                   "    show_error('e1')\n    return R2\n")
+    out.append(Case("h20", "pin:seqx", {"body": pinned_seqx, "x": ["union", 0, 1], "y": ["atom", 2], "px": "pos", "py": "pos", "feat": "seq_noelse"},
+                    timeout=120 if quick else 300, twin=True, vacuous_ok=True))
+    out.append(Case("h20", "pin:seqx2", {"body": pinned_seqx, "x": ["union", 1, 2], "y": ["atom", 0], "px": "pos", "py": "pos", "feat": "seq_noelse"},
+                    timeout=120 if quick else 300, twin=True, vacuous_ok=True))
     for tag, body, x, y in (("nest", pinned_nest, ["union", 0, 1], ["union", 1, 2]), ("nest2", pinned_nest, ["union", 0, 2], ["union", 0, 1]),
                             ("seq", pinned_seq, ["union", 0, 1], ["union", 1, 2]), ("seq2", pinned_seq, ["union", 0, 2], ["union", 0, 1]),
                             ("perm", pinned_perm, ["anyunion", 2], ["atom", 0]), ("perm1", pinned_perm, ["anyunion", 1], ["atom", 0]),
                             ("and", pinned_body, ["union", 0, 1], ["union", 1, 2]), ("or", pinned_or, ["union", 0, 2], ["union", 1, 2]),
                             ("and2", pinned_body, ["union", 0, 2], ["union", 0, 1]), ("lit", pinned_lit, ["lit2"], ["litunion"])):
-        out.append(Case("h20", f"pin:{tag}", {"body": body, "x": x, "y": y, "px": "pos", "py": "pos"}, timeout=120 if quick else 300, twin=True))
+        d = {"body": body, "x": x, "y": y, "px": "pos", "py": "pos"}
+        if "return R0\n    if " in body:
+            d["feat"] = "seq_noelse"
+        out.append(Case("h20", f"pin:{tag}", d, timeout=120 if quick else 300, twin=True, vacuous_ok=True))
     return out
